@@ -31,7 +31,7 @@ func layoutRuns(mask, n int) []memBlock {
 func init() {
 	checks["C15"] = eng.Check{
 		Hist:        true,
-		Rule:        "Bytes memory. (a) creation: every ordered list of <=3 non-empty blocks (begin 0..7, length 1..3, distinct bytes) incl. overlapping, adjacent and unsorted ones: NewBytes fails iff two blocks share an address, otherwise the full read surface (every Load/Missing for a in 0..11, w in 1..3, Blocks) equals the byte map and the given slices are not aliased. (b) histories: for each of the 64 layouts over addresses 0..5 (one block per run) and a layout split into adjacent blocks, every history of <=2 (quick) / <=3 (thorough) constant stores (addr 0..7, width 1..3, constant exactly/narrower/wider than the write, or equal to the bytes already present) on a fresh real Bytes; full surface after each history; histories of >=2 stores in three read/write interleavings (reads after every store, none between the stores, none before the end); digests of constants handed in and expressions returned re-checked. Reads of every width 1..72 from an 80-byte block before and after narrow and wide (33, 64, 255 bytes) stores into, across and beyond it. Non-trivial = history with >=2 stores or creation from >=2 blocks.",
+		Rule:        "Bytes memory. (a) creation: every ordered list of <=3 non-empty blocks (begin 0..7, length 1..3, distinct bytes) incl. overlapping, adjacent and unsorted ones: NewBytes fails iff two blocks share an address, otherwise the full read surface (every Load/Missing for a in 0..11, w in 1..3, Blocks) equals the byte map and the given slices are not aliased — with the blocks given as separately allocated slices and as windows of one larger buffer (slices with spare capacity, as when carved from a file image). (b) histories: for each of the 64 layouts over addresses 0..5 (one block per run) and a layout split into adjacent blocks, every history of <=2 (quick) / <=3 (thorough) constant stores (addr 0..7, width 1..3, constant exactly/narrower/wider than the write, or equal to the bytes already present) on a fresh real Bytes; full surface after each history; histories of >=2 stores in three read/write interleavings (reads after every store, none between the stores, none before the end); digests of constants handed in and expressions returned re-checked. Reads of every width 1..72 from an 80-byte block before and after narrow and wide (33, 64, 255 bytes) stores into, across and beyond it. Non-trivial = history with >=2 stores or creation from >=2 blocks.",
 		Assumptions: []string{"initial blocks are non-empty", "only constants are stored (documented precondition of Bytes.Store)", "no address wrap"},
 		Run: func(r *eng.Run) {
 			// (a) creation
@@ -59,19 +59,22 @@ func init() {
 						if k >= 0 {
 							l = append(l, blocks[k])
 						}
-						c := memCase{Mem: "bytes", Blocks: l, MaxA: 11, MaxW: 3}
-						f, _ := memRun(c)
-						r.Eval(1)
-						r.State(1)
-						r.Trace(1)
-						if len(l) > 1 {
-							r.Nontrivial(1)
-						}
-						if f != nil {
-							r.Report(f)
-							r.Outcome(f.Sig)
-						} else {
-							r.Outcome(fmt.Sprint("created overlap=", blocksOverlap(l)))
+						for _, sharedBuf := range []bool{false, true} {
+							// blocks as separately allocated slices, and as windows of one buffer
+							c := memCase{Mem: "bytes", Blocks: l, MaxA: 11, MaxW: 3, SharedBuf: sharedBuf}
+							f, _ := memRun(c)
+							r.Eval(1)
+							r.State(1)
+							r.Trace(1)
+							if len(l) > 1 {
+								r.Nontrivial(1)
+							}
+							if f != nil {
+								r.Report(f)
+								r.Outcome(f.Sig)
+							} else {
+								r.Outcome(fmt.Sprint("created overlap=", blocksOverlap(l)))
+							}
 						}
 					}
 				}
